@@ -191,7 +191,13 @@ func TestRAC_C06(t *testing.T) {
 	for i := 0; i < ne; i++ {
 		run(emptyRootHistory(rng), true)
 	}
-	res.Rule = fmt.Sprintf("every history with <= %d leaves / <= %d blocks (+%d seeded random histories, +"+fmt.Sprint(ne)+" seeded histories of 2..47 leaves in which whole trees are emptied and then merged over): apply, then undo every block newest-first; after each undo step the full view (roots, leaf count, GetLeafPosition for every hash class, GetHash at every position, Prove of every singleton and of the full set, verified by all verifiers) is compared with the spec forest of that earlier state; then the same blocks are re-applied and one different block is applied, with the C01 root check. Pollard and MapPollard %v. distinct = histories", maxLeaves, maxBlocks, nr, cfgs)
+	// light (non-full, partially remembering) forests: the C09 invariant after undoing every block newest-first
+	np := 80
+	if res.thorough() {
+		np = 1200
+	}
+	n += runLongLivedClients(res, rng, np, []uint8{0, 3, 63}, true)
+	res.Rule = fmt.Sprintf("(+%d seeded long-lived light clients, non-full MapPollard remembering only some leaves, undone block by block with the representation invariant of C09 after every undo) ", np) + fmt.Sprintf("every history with <= %d leaves / <= %d blocks (+%d seeded random histories, +"+fmt.Sprint(ne)+" seeded histories of 2..47 leaves in which whole trees are emptied and then merged over): apply, then undo every block newest-first; after each undo step the full view (roots, leaf count, GetLeafPosition for every hash class, GetHash at every position, Prove of every singleton and of the full set, verified by all verifiers) is compared with the spec forest of that earlier state; then the same blocks are re-applied and one different block is applied, with the C01 root check. Pollard and MapPollard %v. distinct = histories", maxLeaves, maxBlocks, nr, cfgs)
 	res.Scope = fmt.Sprintf("histories=%d", n)
 	res.write(t)
 }
